@@ -1384,85 +1384,132 @@ func c09R6(c *Ctx, r *Report, rule string) {
 	}
 }
 
-// c09R7: path evaluation of packetConn.Read - a datagram's pooled buffer is released exactly when its
-// reader is exhausted and retained (lastPacket/lastBuf) exactly when bytes remain.
+// c09R7: path evaluation of packetConn.Read on concrete sizes - a datagram of 5 bytes in a pooled buffer of 9000, read
+// with a caller buffer of 3, 5 and 8 bytes, and a continued datagram with 2 bytes left, read with 1, 2 and 4. The
+// count returned is min(len(b), remaining); the pooled buffer goes back to the pool exactly when nothing remains;
+// otherwise record and a reader over exactly the remaining bytes are kept for the next Read.
 func c09R7(c *Ctx, r *Report, rule string) {
-	r.rule(rule, "path evaluation of packetConn.Read over {fresh datagram, continued datagram} x {caller's buffer smaller than / exactly / larger than the remaining bytes}: the pooled buffer is returned to the pool iff the datagram's reader is exhausted, otherwise record and reader are retained for the next Read; a datagram is never both", 6)
+	r.rule(rule, "path evaluation of packetConn.Read over {fresh 5-byte datagram, continued datagram with 2 bytes left} x {caller's buffer smaller than / exactly / larger than the remaining bytes}: returns min(len(b), remaining) bytes; the pooled buffer is returned to the pool iff the datagram is exhausted, otherwise record and a reader over exactly the remaining bytes are retained; a datagram is never both", 6)
 	fnName := "layer4.(*packetConn).Read"
 	fn := c.Fn(fnName)
 	if fn == nil {
 		r.bad(rule, fnName, "exists", "-", "function not found")
 		return
 	}
-	for _, cont := range []bool{false, true} {
-		sc := &Scenario{
-			Name:     fmt.Sprintf("continued=%v", cont),
-			MaxVisit: 3,
-			Heap:     map[string]SV{},
-			Inline: func(f *ssa.Function) bool {
-				return strings.HasPrefix(fname(f), "layer4.") && f != fn
-			},
-			Alts: func(callee string, args []SV, ev *symEval, st *symState) []CallAlt {
-				if callee == "(*bytes.Reader).Read" {
-					rd := args[0].Desc
-					// the caller's buffer has 10 bytes (see Params)
-					mk := func(note string, n, rem int64) CallAlt {
-						return CallAlt{Note: note, Ret: SV{K: "tuple", Desc: "rd", Elems: []SV{symInt(n), symNil()}}, Effect: func(ev *symEval, st *symState) {
-							st.heap["remaining:"+rd] = symInt(rem)
-						}}
-					}
-					return []CallAlt{mk("smaller", 10, 7), mk("exact", 10, 0), mk("larger", 3, 0)}
-				}
-				return nil
-			},
-			Call: func(callee string, args []SV, ev *symEval, st *symState) (SV, bool) {
-				switch callee {
-				case "bytes.NewReader":
-					return SV{K: "ref", Known: true, Desc: ev.fresh("reader") + "(" + args[0].Desc + ")"}, true
-				case "(*bytes.Reader).Len":
-					if v, ok := st.heap["remaining:"+args[0].Desc]; ok {
-						return v, true
-					}
-					return SV{K: "int", Desc: "len?" + args[0].Desc}, true
-				case "layer4.isDeadlineExceeded":
-					return symBool(false), true
-				}
-				return SV{}, false
-			},
+	type tc struct {
+		cont      bool
+		lenb      int64
+		remaining int64
+	}
+	var cases []tc
+	for _, lb := range []int64{3, 5, 8} {
+		cases = append(cases, tc{false, lb, 5})
+	}
+	for _, lb := range []int64{1, 2, 4} {
+		cases = append(cases, tc{true, lb, 2})
+	}
+	for _, t := range cases {
+		t := t
+		name := fmt.Sprintf("continued=%v,len(b)=%d,remaining=%d", t.cont, t.lenb, t.remaining)
+		sc := &Scenario{Name: name, MaxVisit: 3,
+			Heap:   map[string]SV{},
+			Params: map[string]SV{"recv": symRef("recv", false), "p0": symSlice("b", t.lenb)},
+			Inline: func(f *ssa.Function) bool { return strings.HasPrefix(fname(f), "layer4.") && f != fn },
 		}
-		if cont {
+		sc.Call = func(callee string, args []SV, ev *symEval, st *symState) (SV, bool) {
+			switch callee {
+			case "bytes.NewReader":
+				if args[0].Len == nil || !args[0].Len.Known {
+					return SV{}, false
+				}
+				id := ev.fresh("reader")
+				st.heap["remaining:"+id] = *args[0].Len
+				st.heap["made:"+id] = *args[0].Len
+				return SV{K: "ref", Known: true, Desc: id}, true
+			case "(*bytes.Reader).Read":
+				rem, ok := st.heap["remaining:"+args[0].Desc]
+				if !ok || args[1].Len == nil || !args[1].Len.Known {
+					return SV{}, false
+				}
+				n := rem.N
+				if args[1].Len.N < n {
+					n = args[1].Len.N
+				}
+				st.heap["remaining:"+args[0].Desc] = symInt(rem.N - n)
+				return SV{K: "tuple", Desc: "rd", Elems: []SV{symInt(n), symNil()}}, true
+			case "(*bytes.Reader).Len":
+				if v, ok := st.heap["remaining:"+args[0].Desc]; ok {
+					return v, true
+				}
+			case "builtin copy":
+				if args[0].Len != nil && args[0].Len.Known && args[1].Len != nil && args[1].Len.Known {
+					n := args[0].Len.N
+					if args[1].Len.N < n {
+						n = args[1].Len.N
+					}
+					return symInt(n), true
+				}
+			case "layer4.isDeadlineExceeded":
+				return symBool(false), true
+			}
+			return SV{}, false
+		}
+		if t.cont {
 			sc.Heap["recv.lastPacket"] = symRef("lastPkt", false)
 			sc.Heap["recv.lastBuf"] = symRef("lastRd", false)
+			sc.Heap["remaining:lastRd"] = symInt(t.remaining)
+			sc.Heap["lastPkt.pooledBuf"] = symSliceCap("lastPkt.pooledBuf", 9000, 9000)
+			sc.Heap["lastPkt.n"] = symInt(5)
 		} else {
 			sc.Heap["recv.lastPacket"] = symNil()
 			sc.Heap["recv.lastBuf"] = symNil()
 		}
-		sc.Params = map[string]SV{"p0": symSlice("b", 10)}
 		sc.Heap["recv.idleTimer"] = symRef("idle", false)
 		sc.Heap["recv.deadlineTimer"] = symRef("dl", false)
+		// the datagram a receive from the queue delivers
+		sc.Heap["pkt.pooledBuf"] = symSliceCap("pkt.pooledBuf", 9000, 9000)
+		sc.Heap["pkt.n"] = symInt(5)
+		sc.Recv = func(ch SV) (SV, bool) {
+			if strings.HasSuffix(ch.Desc, ".readCh") {
+				return symRef("pkt", false), true
+			}
+			return SV{}, false
+		}
 		paths, err := evalPaths(fn, sc)
 		if err != nil || len(paths) == 0 {
-			r.bad(rule, fnName, sc.Name, c.pos(fn.Pos()), fmt.Sprintf("undecided: %v", err))
+			r.bad(rule, fnName, name, c.pos(fn.Pos()), fmt.Sprintf("undecided: %v", err))
 			continue
 		}
-		seen := map[string]bool{}
+		var problems []string
+		delivered := 0
 		for _, p := range paths {
-			note := ""
-			var reader string
-			for _, e := range p.Trace {
-				if e.Kind == "call" && e.What == "(*bytes.Reader).Read" {
-					note = e.Note
-					reader = e.Args[0]
+			if p.Outcome != "return" || len(p.Ret) != 2 {
+				continue
+			}
+			// only the paths on which a datagram was delivered (not closed / idle / deadline)
+			if !(p.Ret[1].Known && p.Ret[1].Nil) {
+				continue
+			}
+			fired := selectFired(p)
+			if !t.cont {
+				got := false
+				for _, f := range fired {
+					if strings.Contains(f, "readCh") {
+						got = true
+					}
+				}
+				if !got {
+					continue
 				}
 			}
-			if note == "" {
-				continue
+			delivered++
+			want := t.lenb
+			if t.remaining < want {
+				want = t.remaining
 			}
-			k := sc.Name + "," + note
-			if seen[k] {
-				continue
+			if !(p.Ret[0].K == "int" && p.Ret[0].Known && p.Ret[0].N == want) {
+				problems = append(problems, fmt.Sprintf("returns n=%s, the caller must get min(len(b), remaining) = %d bytes", p.Ret[0].Desc, want))
 			}
-			seen[k] = true
 			puts := 0
 			for _, e := range p.Trace {
 				if e.Kind == "call" && e.What == "(*sync.Pool).Put" {
@@ -1471,25 +1518,31 @@ func c09R7(c *Ctx, r *Report, rule string) {
 			}
 			lp, lb := p.Heap["recv.lastPacket"], p.Heap["recv.lastBuf"]
 			retained := !(lp.Known && lp.Nil)
-			var problems []string
-			if p.Outcome != "return" {
-				problems = append(problems, "path ends with "+p.Outcome)
-			}
-			exhausted := note != "smaller"
+			left := t.remaining - want
 			switch {
-			case exhausted && puts != 1:
+			case left == 0 && puts != 1:
 				problems = append(problems, fmt.Sprintf("the datagram is exhausted but its pooled buffer is returned %d times", puts))
-			case exhausted && retained:
+			case left == 0 && retained:
 				problems = append(problems, "the datagram is exhausted but kept as lastPacket: the next Read returns (0, EOF) on a live association")
-			case !exhausted && puts != 0:
+			case left > 0 && puts != 0:
 				problems = append(problems, "bytes remain but the pooled buffer is released: the rest of the datagram is lost / overwritten")
-			case !exhausted && !retained:
+			case left > 0 && !retained:
 				problems = append(problems, "bytes remain but the datagram is not retained for the next Read")
-			case !exhausted && !(lb.Desc == reader || strings.Contains(lb.Desc, reader) || cont):
-				problems = append(problems, "the retained reader is "+lb.Desc+", not the datagram's reader "+reader)
+			case left > 0:
+				rem, ok := p.Heap["remaining:"+lb.Desc]
+				if !ok || !(rem.Known && rem.N == left) {
+					d := "unknown"
+					if ok {
+						d = rem.Desc
+					}
+					problems = append(problems, fmt.Sprintf("the reader kept for the next Read holds %s bytes, %d bytes of the datagram remain: the next Read delivers bytes the client never sent (the unused tail of the pooled buffer) or loses some", d, left))
+				}
 			}
-			r.check(len(problems) == 0, rule, fnName, k, c.pos(fn.Pos()), "release iff exhausted, retain iff bytes remain", strings.Join(problems, "; "))
 		}
+		if delivered == 0 {
+			problems = append(problems, "no path delivers the datagram")
+		}
+		r.check(len(problems) == 0, rule, fnName, name, c.pos(fn.Pos()), fmt.Sprintf("%d delivering path(s): n=min(len(b),remaining), release iff exhausted, retain exactly the rest", delivered), strings.Join(dedup(problems), "; "))
 	}
 }
 
